@@ -118,8 +118,9 @@ def main(argv=None):
         if a.only and h.name != a.only:
             continue
         for cfg in h.configs(tier, seed):
-            opts = dict(seed=seed)
+            opts = dict(seed=seed, budget_s=h.opts.get("budget_s", 240))
             if tier == "thorough":
+                opts["budget_s"] = h.opts.get("budget_s_thorough", 1800)
                 opts.update(timeout_ms=h.opts.get("timeout_ms_thorough", 60000), max_paths=h.opts.get("max_paths_thorough", 50000))
             tasks.append((prop, h.name, cfg, opts))
     pre = []
